@@ -8,8 +8,10 @@
 
 mod common;
 mod c02;
+mod c03;
 mod c09;
 mod c10;
+mod c11;
 mod c12;
 mod c13;
 mod c14;
@@ -37,6 +39,8 @@ fn main() {
     let mut rng = Rng::new(seed);
     match prop {
         "C02" => c02::run(&mut em, &mut rng, thorough),
+        "C03" => c03::run(&mut em, &mut rng, thorough),
+        "C11" => c11::run(&mut em, &mut rng, thorough),
         "C09" => c09::run(&mut em, &mut rng, thorough),
         "C10" => c10::run(&mut em, &mut rng, thorough),
         "C12" => c12::run(&mut em, &mut rng, thorough),
